@@ -99,7 +99,7 @@ def main():
         jobs.append((os.path.dirname(m), n))
     copies = queue.Queue()
     for w in range(nw):
-        vc = "/tmp/vcopy_%d" % w
+        vc = "/tmp/vcopy_%d_%d" % (os.getpid(), w)
         sh(["rsync", "-a", "--delete", "--exclude", "work/", "--exclude", "replays/", "--exclude", ".git/",
             "--exclude", "seeded/", "/verif/", vc + "/"])
         copies.put(vc)
@@ -117,7 +117,7 @@ def main():
     with ThreadPoolExecutor(max_workers=nw) as ex:
         list(ex.map(run, jobs))
     for w in range(nw):
-        shutil.rmtree("/tmp/vcopy_%d" % w, ignore_errors=True)
+        shutil.rmtree("/tmp/vcopy_%d_%d" % (os.getpid(), w), ignore_errors=True)
 
 
 if __name__ == "__main__":
